@@ -502,3 +502,67 @@ func valueAfterErrCheck(c *core.Ctx, R string, pkgs ...string) {
 	c.Need(R, "`v, err :=` definitions with a nil-able value", nDefs, 5)
 	c.Need(R, "uses of such values", nUses, 5)
 }
+
+// evalIntCond evaluates a boolean expression built from comparisons of the
+// local variable `name` with integer constants, combined with &&, ||, !, for
+// name = val. ok is false when the expression has any other shape.
+func evalIntCond(u *core.Unit, e ast.Expr, name string, val int64) (res bool, ok bool) {
+	info := u.Info()
+	switch x := ast.Unparen(e).(type) {
+	case *ast.UnaryExpr:
+		if x.Op == token.NOT {
+			r, k := evalIntCond(u, x.X, name, val)
+			return !r, k
+		}
+	case *ast.BinaryExpr:
+		switch x.Op {
+		case token.LAND, token.LOR:
+			a, ka := evalIntCond(u, x.X, name, val)
+			b, kb := evalIntCond(u, x.Y, name, val)
+			if !ka || !kb {
+				return false, false
+			}
+			if x.Op == token.LAND {
+				return a && b, true
+			}
+			return a || b, true
+		case token.EQL, token.NEQ, token.LSS, token.LEQ, token.GTR, token.GEQ:
+			var k int64
+			var kok bool
+			op := x.Op
+			if isLocalAnyDepth(u, x.X, name) {
+				k, kok = core.ConstInt(info, x.Y)
+			} else if isLocalAnyDepth(u, x.Y, name) {
+				k, kok = core.ConstInt(info, x.X)
+				switch op {
+				case token.LSS:
+					op = token.GTR
+				case token.LEQ:
+					op = token.GEQ
+				case token.GTR:
+					op = token.LSS
+				case token.GEQ:
+					op = token.LEQ
+				}
+			}
+			if !kok {
+				return false, false
+			}
+			switch op {
+			case token.EQL:
+				return val == k, true
+			case token.NEQ:
+				return val != k, true
+			case token.LSS:
+				return val < k, true
+			case token.LEQ:
+				return val <= k, true
+			case token.GTR:
+				return val > k, true
+			case token.GEQ:
+				return val >= k, true
+			}
+		}
+	}
+	return false, false
+}
